@@ -1,4 +1,5 @@
 """Shared helpers for the managed-pool rules."""
+import re
 from .facts import strip_generics, Place, Operand, norm_path
 from .roles import ManagedRoles, PERMIT_ADT, classify_write, adt_of
 from .engine import Undecided
@@ -157,6 +158,15 @@ def receiver_is_field(an, op, owner, field, depth=0):
     if p.has_field(owner, field):
         return True
     if p.proj and not all(x in ('*', 'as') for x in p.proj):
+        # a reference kept in a field of a local helper struct (`Cursor { vec: &mut guard.vec, .. }` then `*cursor.vec`)
+        sel = [x for x in p.proj if x.startswith('.')]
+        if len(sel) == 1 and all(x in ('*', 'as') or x == sel[0] for x in p.proj):
+            ds = an.defs(p.local)
+            if len(ds) == 1 and ds[0][0] == 'stmt' and ds[0][3].rv.kind == 'agg' and ds[0][3].rv.j.get('ak') in ('adt', 'tuple'):
+                rv = ds[0][3].rv
+                names = rv.j.get('fields') or [str(i) for i in range(len(rv.ops))]
+                if sel[0][1:] in names and len(names) == len(rv.ops):
+                    return receiver_is_field(an, rv.ops[names.index(sel[0][1:])], owner, field, depth + 1)
         return False
     d = an.single_def(p.local)
     if d is None:
@@ -198,6 +208,49 @@ def guard_root(an, place, depth=0):
     return None
 
 
+def _saturating_difference(an, r, op, depth=0):
+    """is the operand `size.saturating_sub(max_size)` ('size-max') or `max_size.saturating_sub(size)` ('max-size')?
+    (a clamped difference compared with zero is the comparison of its operands)"""
+    for _ in range(6):
+        if op.kind == 'const' or op.place.proj:
+            return None
+        d = an.single_def(op.place.local)
+        if d is None:
+            return None
+        if d[0] == 'stmt':
+            if d[3].rv.kind == 'use':
+                op = d[3].rv.ops[0]; continue
+            return None
+        t = d[3]
+        if len(t.args) == 2 and any(n.split('::')[-1] == 'saturating_sub' and '::num::' in n for n in t.callee_names()):
+            a = field_of_operand(an, r, t.args[0]); b = field_of_operand(an, r, t.args[1])
+            if (a, b) == (r.SIZE, r.MAX):
+                return 'size-max', d[1]
+            if (a, b) == (r.MAX, r.SIZE):
+                return 'max-size', d[1]
+        return None
+    return None
+
+
+def _difference_relation(diff, op_, const_val):
+    """relation between size and max equivalent to `diff <op_> const_val` for a clamped (>= 0) difference, or None"""
+    pos = {('Gt', 0), ('Ne', 0), ('Ge', 1)}          # difference is positive
+    zero = {('Eq', 0), ('Le', 0), ('Lt', 1)}         # difference is zero
+    if (op_, const_val) in pos:
+        return 'size>max' if diff == 'size-max' else 'size<max'
+    if (op_, const_val) in zero:
+        return 'size<=max' if diff == 'size-max' else 'size>=max'
+    return None
+
+
+def _small_const(op):
+    if op.kind != 'const':
+        return None
+    v = str(op.const.get('v', ''))
+    m = re.match(r'^(\d+)_(usize|u\d+|i\d+|isize)$', v)
+    return int(m.group(1)) if m else None
+
+
 def cmp_relation(an, r, switch_blk, arm_label, _depth=0):
     """normalised relation between SIZE and MAX that holds on `arm_label` of a bool switch.
     returns one of 'size<=max','size<max','size>max','size>=max','size==max','size!=max' or None"""
@@ -231,6 +284,14 @@ def cmp_relation(an, r, switch_blk, arm_label, _depth=0):
                     if want_equal:
                         return _encoded_relation(an, r, subj.place.local, [var], _depth)
                     return _encoded_relation(an, r, subj.place.local, None, _depth, exclude=var)
+    if t.kind == 'switch' and t.j.get('dty') not in (None, 'bool') and not t.j.get('variants') and t.discr.kind != 'const':
+        # `match slots.surplus() { 0 => .., _ => .. }`
+        df = _saturating_difference(an, r, t.discr)
+        labs = [l for l, _t in t.switch_arms()]
+        if df and sorted(labs) == ['0', 'otherwise']:
+            rel = _difference_relation(df[0], 'Eq' if arm_label == '0' else 'Ne', 0)
+            return (rel, df[1]) if rel else None
+        return None
     if t.kind != 'switch' or t.j.get('dty') != 'bool':
         return None
     neg = (arm_label == 'false')
@@ -253,6 +314,16 @@ def cmp_relation(an, r, switch_blk, arm_label, _depth=0):
         if rv.kind == 'bin' and rv.binop in ('Le', 'Lt', 'Ge', 'Gt', 'Eq', 'Ne'):
             a = field_of_operand(an, r, rv.ops[0]); b = field_of_operand(an, r, rv.ops[1])
             if {a, b} != {r.SIZE, r.MAX}:
+                # a clamped difference of the two compared with a constant
+                for x_, y_, swap in ((rv.ops[0], rv.ops[1], False), (rv.ops[1], rv.ops[0], True)):
+                    df = _saturating_difference(an, r, x_)
+                    cv = _small_const(y_)
+                    if df and cv is not None:
+                        o = _SWAP[rv.binop] if swap else rv.binop
+                        if neg:
+                            o = _NEG[o]
+                        rel = _difference_relation(df[0], o, cv)
+                        return (rel, d[1]) if rel else None
                 return None
             o = rv.binop
             if a == r.MAX:  # swap operands so that SIZE is on the left
@@ -313,7 +384,7 @@ def governing_relations(an, r, bb, _depth=0):
     doms = an.doms(('normal',)).get(bb) or ()
     for d in doms:
         blk = an.b.blocks[d]
-        if blk.term.kind != 'switch' or (blk.term.j.get('dty') != 'bool' and not blk.term.j.get('variants')):
+        if blk.term.kind != 'switch':
             continue
         arms = blk.term.switch_arms()
         reach_by = []
